@@ -88,9 +88,9 @@ PROPS = {
         assumptions=[R_REAL, "totality is not judged: a source channel whose only offered downstream channels are full waits, which the property does not exclude"],
     ),
     "C13": dict(
-        rig="C", runs=dict(quick=3000, thorough=100000),
-        nontrivial_probes=["live_collection", "live_partition", "notified_twice", "creating_to_dropped"],
-        must_hit=["live_collection", "live_partition", "notified_twice", "creating_to_dropped"],
+        rig="C", mix=[("C", ""), ("C", ""), ("C", ""), ("R", "")], runs=dict(quick=3200, thorough=100000),
+        nontrivial_probes=["live_collection", "live_partition", "notified_twice", "creating_to_dropped", "R_second_announcement_checked"],
+        must_hit=["live_collection", "live_partition", "notified_twice", "creating_to_dropped", "R_second_announcement_checked"],
         rule="A generated rootcoord write sequence (databases, collections creating->created/creating->tombstone/dropping/tombstone, re-created names, partitions in every state) is applied to a simulated etcd partly before and partly - one write per scheduler action - during the reader's subscribe / open watch / list databases / list collections / fill fields / list partitions / start-watch steps, each of which is a parked etcd call; watch batches are delivered as scheduler actions; 1-2 tasks share one EtcdOp with Map.Range order fixed per run; up to 2 injected read errors.",
         assumptions=["rig C: real CollectionReader and EtcdOp over SimEtcd; the channel manager is a recording stub, so 'no further effect of a second notification' is judged in the rig R / server checks, here only that notifications are not lost, not misattributed and never given for objects that were never created", "a watch is effective from the moment Watch() returns (registration lag is not injected)"],
     ),
